@@ -403,7 +403,7 @@ class Ctx:
                 return False
         if any(v["key"] == key for v in self.violations):
             return True
-        rdir = VERIF / "replays" / self.pid
+        rdir = Path(os.environ.get("VERIF_REPLAY_DIR", VERIF / "replays")) / self.pid
         rdir.mkdir(parents=True, exist_ok=True)
         path = rdir / f"{len(self.violations)}_{hashlib.sha1(key.encode()).hexdigest()[:8]}.json"
         path.write_text(json.dumps({"property": self.pid, "key": key, "what": what, **replay}, indent=1, default=str))
@@ -433,8 +433,9 @@ class Ctx:
         }
         if not self.cov["samples"]:
             self.cov["samples"] = ["(no case completed)"]
-        (VERIF / "evidence").mkdir(exist_ok=True)
-        (VERIF / "evidence" / f"{self.pid}.json").write_text(json.dumps(ev, indent=1, default=str))
+        edir = Path(os.environ.get("VERIF_EVIDENCE_DIR", VERIF / "evidence"))   # redirected only when trying seeded changes
+        edir.mkdir(parents=True, exist_ok=True)
+        (edir / f"{self.pid}.json").write_text(json.dumps(ev, indent=1, default=str))
 
 
 # --------------------------------------------------------------------------- known findings
